@@ -235,6 +235,17 @@ func reifyMap(opts *options, to reflect.Value, from *Config, validators []valida
 		}
 	}
 
+	// entries the map already held and the config does not mention stay in
+	// the result: they have to be valid like the ones just set.
+	for _, key := range to.MapKeys() {
+		if _, mentioned := fields[key.String()]; mentioned {
+			continue
+		}
+		if err := tryRecursiveValidate(to.MapIndex(key), opts, nil); err != nil {
+			return raiseValidation(from.ctx, from.metadata, key.String(), err)
+		}
+	}
+
 	if err := runValidators(to.Interface(), validators); err != nil {
 		return raiseValidation(from.ctx, from.metadata, "", err)
 	}
